@@ -110,7 +110,7 @@ class Snap(object):
 
     # ---- lights, cameras
     def light(self, l):
-        d = {'class': type(l).__name__, 'id': l.id, 'color': val(l.color)}
+        d = {'class': type(l).__name__, 'id': l.id, 'color': [num(x) for x in l.color]}
         for nm in ('constant_att', 'linear_att', 'quad_att', 'zfar', 'falloff_ang', 'falloff_exp'):
             if hasattr(l, nm):
                 d[nm] = num(getattr(l, nm))
